@@ -15,8 +15,7 @@ def configs(tier):
     from jumanji.environments import MultiCVRP
     from jumanji.environments.routing.multi_cvrp.generator import UniformRandomGenerator as G
     out = {"c6v2": lambda: MultiCVRP(G(6, 2)), "c6v3": lambda: MultiCVRP(G(6, 3))}
-    if tier != "quick":
-        out["c6v4"] = lambda: MultiCVRP(G(6, 4))
+    # (the generator accepts only 2 or 3 vehicles for 6 customers, the smallest instance; 20 customers is out of reach of the element-wise proof)
     return out
 
 
